@@ -34,7 +34,12 @@ Section Cfg.
   Inductive node :=
   | NLeaf (f : F)
   | NSub (dyn : bool) (vals : list N) (fields : list (str * node))       (* Schema / config type *)
-  | NCfgList (required : bool) (vals : list N) (fields : list (str * node)).  (* ListField(Schema(fields)) *)
+  | NCfgList (required : bool) (vals : list N) (fields : list (str * node))   (* ListField(Schema(fields), default=...) *)
+             (dflt : option (bool * list pyval)).
+  (* dflt: None -- no default (the field holds None until something is assigned); Some (callable, maps) -- default=[maps] or
+     default=lambda: [maps]: ListField.__setdefault__ copies the list and builds ListProxy(cfg, field, copy), i.e. every map is
+     loaded into a fresh configuration of the item schema and validated, whenever a configuration of the enclosing schema is
+     built or the key is reset; a callable default is one more evaluation in the world's count *)
 
   Inductive val :=
   | VLeaf (v : pyval)
@@ -79,40 +84,6 @@ Section Cfg.
     | PDigest _ _ _ => false | POther _ => false
     end.
 
-  (* ---- Config.__init__ without keywords: every field gets its default, marked as default ---- *)
-  Definition eval_default (w : world) (f : F) : world * pyval :=
-    if lcallable f then ({| w_next := w_next w; w_calls := w_calls w + 1 |}, ldefault f (w_calls w))
-    else (w, ldefault f (w_calls w)).
-
-  Fixpoint build_val (w : world) (nd : node) {struct nd} : world * val :=
-    match nd with
-    | NLeaf f => let '(w1, v) := eval_default w f in (w1, VLeaf v)
-    | NCfgList _ _ _ => (w, VLeaf PNone)                    (* ListField(schema) without default *)
-    | NSub _ _ fs =>
-        let i := w_next w in
-        let '(w', d) :=
-          (fix go (w : world) (fs : list (str * node)) {struct fs} : world * list (str * val) :=
-             match fs with
-             | [] => (w, [])
-             | (k, nd') :: r =>
-                 let '(w1, v) := build_val w nd' in
-                 let '(w2, d) := go w1 r in (w2, (k, v) :: d)
-             end) {| w_next := i + 1; w_calls := w_calls w |} fs in
-        (w', VCfg (Cfg i d (map fst fs) []))
-    end.
-
-  Fixpoint build_fields (w : world) (fs : list (str * node)) : world * list (str * val) :=
-    match fs with
-    | [] => (w, [])
-    | (k, nd) :: r =>
-        let '(w1, v) := build_val w nd in
-        let '(w2, d) := build_fields w1 r in (w2, (k, v) :: d)
-    end.
-  Definition build_cfg (w : world) (fs : list (str * node)) : world * cfg :=
-    let i := w_next w in
-    let '(w', d) := build_fields {| w_next := i + 1; w_calls := w_calls w |} fs in
-    (w', Cfg i d (map fst fs) []).
-
   (* ---- Schema._validate (whole-configuration validation) ---- *)
   Definition leaf_values (d : list (str * val)) : list (str * pyval) :=
     flat_map (fun kv => match kv with (k, VLeaf v) => [(k, v)] | _ => [] end) d.
@@ -143,9 +114,9 @@ Section Cfg.
                      (match nd', dget k d with
                       | NLeaf f, Some (VLeaf x) =>
                           match lvalidate f x with Err e => [wrap (path_join pre k) e] | _ => [] end
-                      | NCfgList req _ _, Some (VLeaf PNone) =>
+                      | NCfgList req _ _ _, Some (VLeaf PNone) =>
                           if req then [EValidation (path_join pre k)] else []
-                      | NCfgList req _ _, Some (VList l) =>
+                      | NCfgList req _ _ _, Some (VList l) =>
                           (* field.validate (required / empty), then item.validate() for every configuration in the list *)
                           if req && match l with [] => true | _ => false end then [EValidation (path_join pre k)]
                           else firstn 1 (validate_errs nd' (path_join pre k) (VList l))
@@ -159,7 +130,7 @@ Section Cfg.
         end in
     match nd, v with
     | NSub _ vs fs, VCfg c => cfg_errs vs fs pre c
-    | NCfgList _ vs fs, VList l =>
+    | NCfgList _ vs fs _, VList l =>
         (* the errors of the items, item by item, each at its own path pre[i] *)
         (fix items (l : list cfg) (i : N) {struct l} : list errk :=
            match l with
@@ -185,6 +156,91 @@ Section Cfg.
     | Err e => (c, OErr (wrap (path_join pre k) e))
     | Unmodelled => (c, OUnm)
     end.
+
+  (* ---- Config.__init__ without keywords: every field gets its default, marked as default ---- *)
+  Definition eval_default (w : world) (f : F) : world * pyval :=
+    if lcallable f then ({| w_next := w_next w; w_calls := w_calls w + 1 |}, ldefault f (w_calls w))
+    else (w, ldefault f (w_calls w)).
+
+  (* what a slot holds when building its declared default raised (an item of a default list that does not load or does not
+     validate): the constructor of the enclosing configuration fails in the code; every theorem about built configurations
+     assumes it does not happen (ConfigWF.ok_node), the correspondence never generates such a schema, and an observation
+     containing this value can agree with nothing the implementation reports *)
+  Definition default_failed : pyval := POther 78.
+
+  (* load_tree of one default item: the maps of a default list are restricted to leaf keys of the item schema (anything
+     else: Unmodelled, which build_val turns into default_failed) *)
+  Fixpoint flat_load (d : list (pyval * pyval)) (it : cfg) (fs' : list (str * node)) : cfg * oc :=
+    match d with
+    | [] => (it, OOk)
+    | (PStr kk, xi) :: r =>
+        match fget kk fs' with
+        | Some (NLeaf f) =>
+            match lto_python f xi with
+            | Ok xi' => match set_leaf [] it f kk xi' with
+                        | (it', OOk) => flat_load r it' fs'
+                        | other => other
+                        end
+            | Err e => (it, OErr (wrap kk e))
+            | Unmodelled => (it, OUnm)
+            end
+        | _ => (it, OUnm)
+        end
+    | _ :: _ => (it, OUnm)
+    end.
+
+  Fixpoint build_val (w : world) (nd : node) {struct nd} : world * val :=
+    let build_fs :=
+      (fix go (w : world) (fs : list (str * node)) {struct fs} : world * list (str * val) :=
+         match fs with
+         | [] => (w, [])
+         | (k, nd') :: r =>
+             let '(w1, v) := build_val w nd' in
+             let '(w2, d) := go w1 r in (w2, (k, v) :: d)
+         end) in
+    match nd with
+    | NLeaf f => let '(w1, v) := eval_default w f in (w1, VLeaf v)
+    | NCfgList _ _ _ None => (w, VLeaf PNone)               (* ListField(schema) without default *)
+    | NCfgList _ vs fs' (Some (callable, maps)) =>
+        let w0 := if callable then {| w_next := w_next w; w_calls := w_calls w + 1 |} else w in
+        match
+          (fix items (ts : list pyval) (w : world) (acc : list cfg) {struct ts} : world * option (list cfg) :=
+             match ts with
+             | [] => (w, Some (rev acc))
+             | PDict _ d :: r =>
+                 let i := w_next w in                       (* cfg = item_field(): a fresh item with its own defaults *)
+                 let '(w1, dd) := build_fs {| w_next := i + 1; w_calls := w_calls w |} fs' in
+                 match flat_load d (Cfg i dd (map fst fs') []) fs' with      (* cfg.load_tree(map): keys, then validate *)
+                 | (it1, OOk) =>
+                     match validate_raise (NSub false vs fs') [] (VCfg it1) with
+                     | OOk => items r w1 (it1 :: acc)
+                     | _ => (w1, None)
+                     end
+                 | _ => (w1, None)
+                 end
+             | _ :: _ => (w, None)
+             end) maps w0 []
+        with
+        | (w1, Some l) => (w1, VList l)
+        | (w1, None) => (w1, VLeaf default_failed)
+        end
+    | NSub _ _ fs =>
+        let i := w_next w in
+        let '(w', d) := build_fs {| w_next := i + 1; w_calls := w_calls w |} fs in
+        (w', VCfg (Cfg i d (map fst fs) []))
+    end.
+
+  Fixpoint build_fields (w : world) (fs : list (str * node)) : world * list (str * val) :=
+    match fs with
+    | [] => (w, [])
+    | (k, nd) :: r =>
+        let '(w1, v) := build_val w nd in
+        let '(w2, d) := build_fields w1 r in (w2, (k, v) :: d)
+    end.
+  Definition build_cfg (w : world) (fs : list (str * node)) : world * cfg :=
+    let i := w_next w in
+    let '(w', d) := build_fields {| w_next := i + 1; w_calls := w_calls w |} fs in
+    (w', Cfg i d (map fst fs) []).
 
   Definition is_nil {A} (l : list A) : bool := match l with [] => true | _ => false end.
 
@@ -237,7 +293,7 @@ Section Cfg.
         | POther _ => (w, c, OUnm)
         | _ => (w, c, OErr (EValidation (path_join pre k)))               (* Unable to coerce ... to Config *)
         end
-    | Some (NCfgList req vs fs') =>
+    | Some (NCfgList req vs fs' _) =>
         let p := path_join pre k in
         let items :=                                          (* ListProxy(cfg, field, iterable): items one by one *)
           (fix go (l : list pyval) (i : N) (w : world) (acc : list cfg) {struct l} : world * list cfg * oc :=
@@ -399,7 +455,7 @@ Section Cfg.
     | CReset k => reset_key w c fs k
     | CInsert k i x =>
         match fget k fs, dget k (c_data c) with
-        | Some (NCfgList _ vs' fs'), Some (VList l) =>
+        | Some (NCfgList _ vs' fs' _), Some (VList l) =>
             (* super().insert(index, self._validate(item)): the item is built and loaded first (reported position: len(self)),
                then list.insert clamps the index *)
             match make_item w (path_join pre k) (N.of_nat (length l)) vs' fs' x with
@@ -423,7 +479,7 @@ Section Cfg.
         (w, c, if collect then OErrs errs else match errs with [] => OOk | e :: _ => OErr e end)
     | CAppend k x =>
         match fget k fs, dget k (c_data c) with
-        | Some (NCfgList _ vs' fs'), Some (VList l) =>
+        | Some (NCfgList _ vs' fs' _), Some (VList l) =>
             (* position reported while the item is not in the list yet: len(self) *)
             match make_item w (path_join pre k) (N.of_nat (length l)) vs' fs' x with
             | (w1, Some it, OOk) => (w1, match c with Cfg i d df dy => Cfg i (dset k (VList (l ++ [it])) d) df dy end, OOk)
@@ -433,7 +489,7 @@ Section Cfg.
         end
     | CSetIdx k i x =>
         match fget k fs, dget k (c_data c) with
-        | Some (NCfgList _ vs' fs'), Some (VList l) =>
+        | Some (NCfgList _ vs' fs' _), Some (VList l) =>
             match make_item w (path_join pre k) (N.of_nat (length l)) vs' fs' x with
             | (w1, Some it, OOk) =>
                 if (i <? length l)%nat
@@ -456,13 +512,13 @@ Section Cfg.
             | _ => (w, c, OUnm)                                (* a raw Config held by a leaf (AnyField): outside the value model *)
             end
         | Some (NSub _ _ _) => (w, store c k (VCfg src), OOk)
-        | Some (NCfgList _ _ _) => (w, c, OErr (EValidation (path_join pre k)))    (* ListField._validate: value is not a list *)
+        | Some (NCfgList _ _ _ _) => (w, c, OErr (EValidation (path_join pre k)))    (* ListField._validate: value is not a list *)
         end
     | CAppendObj k src =>
         (* ListProxy._validate with a Config item: parent / key / container are set, then value.validate() in raising mode;
            the item is not in the list yet, so the position it reports is len(self) *)
         match fget k fs, dget k (c_data c) with
-        | Some (NCfgList _ vs' fs'), Some (VList l) =>
+        | Some (NCfgList _ vs' fs' _), Some (VList l) =>
             match obj_item (path_join pre k) (N.of_nat (length l)) vs' fs' src with
             | OOk => (w, match c with Cfg i d df dy => Cfg i (dset k (VList (l ++ [src])) d) df dy end, OOk)
             | o => (w, c, o)
@@ -471,7 +527,7 @@ Section Cfg.
         end
     | CSetIdxObj k i src =>
         match fget k fs, dget k (c_data c) with
-        | Some (NCfgList _ vs' fs'), Some (VList l) =>
+        | Some (NCfgList _ vs' fs' _), Some (VList l) =>
             match obj_item (path_join pre k) (N.of_nat (length l)) vs' fs' src with
             | OOk =>
                 if (i <? length l)%nat
@@ -483,7 +539,7 @@ Section Cfg.
         end
     | CInsertObj k i src =>
         match fget k fs, dget k (c_data c) with
-        | Some (NCfgList _ vs' fs'), Some (VList l) =>
+        | Some (NCfgList _ vs' fs' _), Some (VList l) =>
             match obj_item (path_join pre k) (N.of_nat (length l)) vs' fs' src with
             | OOk =>
                 let n := insert_pos i (length l) in
@@ -508,7 +564,7 @@ Section Cfg.
         end
     | PItem k i :: r =>
         match fget k fs, dget k (c_data c) with
-        | Some (NCfgList _ vs' fs'), Some (VList l) =>
+        | Some (NCfgList _ vs' fs' _), Some (VList l) =>
             match nth_error l i with
             | Some it =>
                 let '(w1, it', oc1) := at_path r w (path_index (path_join pre k) (N.of_nat i)) it false vs' fs' o in
@@ -648,8 +704,8 @@ Section Cfg.
                     else match lto_basic f x with Err e => Err (wrap p e) | o => o end
         | None => match lto_basic f x with Err e => Err (wrap p e) | o => o end
         end
-    | NCfgList _ _ _, VLeaf PNone => Ok PNone
-    | NCfgList _ _ fs, VList l =>
+    | NCfgList _ _ _ _, VLeaf PNone => Ok PNone
+    | NCfgList _ _ fs _, VList l =>
         (* without a mask: ListField.to_basic -> item.to_tree(); with one: item.to_tree(mask) (F5 repair).
            Either way the item is rendered with the mask in force, which is None in the first case. *)
         match
@@ -706,7 +762,7 @@ End Cfg.
 
 Arguments NLeaf {F} f.
 Arguments NSub {F} dyn vals fields.
-Arguments NCfgList {F} required vals fields.
+Arguments NCfgList {F} required vals fields dflt.
 Arguments XOp {F} o.
 Arguments XObj {F} r k sdyn svs sfs dops.
 Arguments XAgain {F} r k dops.
